@@ -161,7 +161,13 @@ class Run:
         res = self.res
         if op in ("add", "simplify", "downsize", "branch", "split", "combine", "merge"):
             if outcome[0] != "ok":
-                self.viol(st, f"{op}-raised", observed=list(outcome))
+                if self.mode == "none":
+                    res.count(f"{op}_raised_not_judged_here")
+                    res.setadd("maintenance_exceptions_not_judged_here", str(outcome[1])[:120])
+                else:
+                    self.viol(st, f"{op}-raised", observed=list(outcome))
+            return
+        if self.mode == "none":
             return
         res.count("answers_judged")
         a = self.ans(lv, extra_d)
@@ -340,3 +346,39 @@ def cache_state(s):
     parts.append(getattr(s, "_simplified", "-"))
     parts.append(min(len(getattr(s, "_to_add", []) or []), 2))
     return tuple(parts)
+
+
+def probe(solver, exprs, bools, build):
+    """A fixed set of questions whose answers are functions of the solver's model set only (complete
+    enumerations, optima, satisfiability); used to compare a solver with itself before/after something else ran."""
+    out = []
+    for e in exprs:
+        a = build(e)
+        for name, fn in (
+            ("max-u", lambda: solver.max(a)),
+            ("min-u", lambda: solver.min(a)),
+            ("max-s", lambda: solver.max(a, signed=True) & ((1 << len(a)) - 1)),
+            ("min-s", lambda: solver.min(a, signed=True) & ((1 << len(a)) - 1)),
+            ("all", lambda: _complete(solver.eval(a, 70), 70)),
+        ):
+            try:
+                out.append((name, fn()))
+            except claripy.errors.UnsatError:
+                out.append((name, "unsat"))
+            except Exception as ex:  # noqa: BLE001  (a crash is an answer too: it must not change either)
+                out.append((name, "raised:" + type(ex).__name__))
+    try:
+        out.append(("sat", solver.satisfiable()))
+    except Exception as ex:  # noqa: BLE001
+        out.append(("sat", "raised:" + type(ex).__name__))
+    for c in bools:
+        try:
+            out.append(("sat+", solver.satisfiable(extra_constraints=(build(c),))))
+        except Exception as ex:  # noqa: BLE001
+            out.append(("sat+", "raised:" + type(ex).__name__))
+    return out
+
+
+def _complete(vals, n):
+    vals = tuple(vals)
+    return sorted(set(vals)) if len(vals) < n else "at-least-%d" % n
